@@ -152,31 +152,36 @@ def replay(payload):
     kw = payload["case_kw"]
     ts = SK.two_tree()
     bad = []
-    # replay a fixed representative history for the pair (values differ between the calls)
-    hist = []
-    for i, kind in enumerate((kw["first"], kw["second"])):
-        if kind == "preprocess_ts":
-            p = {"minimum_gap": 3.0 if i == 0 else 1.5, "erase_flanks": bool(i), "split_disjoint": True}
-        elif kind == "variational_gamma":
-            p = {"mutation_rate": 0.1 + 0.15 * i, "max_iterations": 2 + i, "rescaling_intervals": i}
-        else:
-            p = {"mutation_rate": 0.1 + 0.15 * i, "population_size": 10, "eps": 1e-6, "probability_space": "linear"}
-        hist.append((kind, p))
-    cur = ts
-    for i, (kind, p) in enumerate(hist):
-        n0 = cur.num_provenances
-        out = _call(tsdate, cur, (kind, p), True)
-        if out.num_provenances != n0 + 1:
-            bad.append((i, "records added", out.num_provenances - n0))
-        else:
-            par = json.loads(out.provenance(out.num_provenances - 1).record)["parameters"]
-            want = (PRE_KEYS if kind == "preprocess_ts" else INIT_KEYS | RUN_KEYS[kind]) | {"command"}
-            if set(par) != want:
-                bad.append((i, kind, "extra", sorted(set(par) - want), "missing", sorted(want - set(par))))
-            if par.get("command") != kind:
-                bad.append((i, "command", par.get("command")))
-            for k, v in p.items():
-                if par.get(k) != v:
-                    bad.append((i, k, par.get(k), v))
-        cur = out
+    # replay representative histories for the pair (values differ between the calls), with the
+    # preprocessing options both on and off
+    for split in (True, False):
+        hist = []
+        for i, kind in enumerate((kw["first"], kw["second"])):
+            if kind == "preprocess_ts":
+                p = {"minimum_gap": 3.0 if i == 0 else 1.5, "erase_flanks": bool(i) == split,
+                     "split_disjoint": split}
+            elif kind == "variational_gamma":
+                p = {"mutation_rate": 0.1 + 0.15 * i, "max_iterations": 2 + i, "rescaling_intervals": i}
+            else:
+                p = {"mutation_rate": 0.1 + 0.15 * i, "population_size": 10, "eps": 1e-6, "probability_space": "linear"}
+            hist.append((kind, p))
+        cur = ts
+        for i, (kind, p) in enumerate(hist):
+            n0 = cur.num_provenances
+            out = _call(tsdate, cur, (kind, p), True)
+            if out.num_provenances != n0 + 1:
+                bad.append((i, kind, "split_disjoint=%s" % split, "records added", out.num_provenances - n0))
+            else:
+                par = json.loads(out.provenance(out.num_provenances - 1).record)["parameters"]
+                want = (PRE_KEYS if kind == "preprocess_ts" else INIT_KEYS | RUN_KEYS[kind]) | {"command"}
+                if set(par) != want:
+                    bad.append((i, kind, "extra", sorted(set(par) - want), "missing", sorted(want - set(par))))
+                if par.get("command") != kind:
+                    bad.append((i, "command", par.get("command")))
+                for k, v in p.items():
+                    if par.get(k) != v:
+                        bad.append((i, k, par.get(k), v))
+            cur = out
+        if "preprocess_ts" not in (kw["first"], kw["second"]):
+            break
     return bool(bad), str(bad[:4])
